@@ -213,3 +213,63 @@ Proof.
   - intros fuel. unfold evaluate_orig. cbn [deps tables map first_not_ok]. rewrite (cycle_diverges _ _ Hc fuel). reflexivity.
   - intros fuel. reflexivity.
 Qed.
+
+(* ------------------------------------------------------------------ item definition trees of any depth *)
+Section itemdef_induction.
+  Variable P : itemdef -> Prop.
+  Hypothesis step : forall n r cs, Forall P cs -> P (ItemDef n r cs).
+  Fixpoint itemdef_nested_ind (t : itemdef) : P t :=
+    match t with
+    | ItemDef n r cs =>
+      step n r cs ((fix go (l : list itemdef) : Forall P l :=
+                      match l with [] => Forall_nil P | x :: xs => Forall_cons x (itemdef_nested_ind x) (go xs) end) cs)
+    end.
+End itemdef_induction.
+
+(* the recursive collection reaches every type reference of the tree, at any nesting depth, and nothing else *)
+Lemma collect_refs_complete : forall t x, occurs x t <-> In x (collect_refs t).
+Proof.
+  intros t x. induction t as [n r cs IH] using itemdef_nested_ind. cbn [collect_refs]. split.
+  - intros H. inversion H as [? ? | ? ? ? c Hin Hc]; subst.
+    + left. reflexivity.
+    + apply in_or_app. right. apply in_flat_map. exists c. split; [exact Hin|].
+      rewrite Forall_forall in IH. apply (IH c Hin). exact Hc.
+  - intros H. apply in_app_or in H. destruct H as [H | H].
+    + destruct r as [y|]; [|inversion H]. destruct H as [-> | []]. constructor.
+    + apply in_flat_map in H. destruct H as (c & Hin & Hc). rewrite Forall_forall in IH.
+      eapply occ_deep; [exact Hin | apply (IH c Hin); exact Hc].
+Qed.
+
+(* so a reference at any depth is an edge of the dependency graph the cycle search runs on *)
+Lemma nested_reference_is_edge : forall t rest x, occurs x t ->
+  exists ts, targets (item_graph (t :: rest)) (item_name t) = Some ts /\ In x ts.
+Proof.
+  intros t rest x H. exists (collect_refs t). split; [|apply collect_refs_complete; exact H].
+  unfold item_graph. cbn [map targets fst snd]. rewrite Nat.eqb_refl. reflexivity.
+Qed.
+
+Lemma nested_occurs : forall d x, occurs x (nested d x).
+Proof. induction d as [|d IH]; intros x; cbn [nested]; [constructor|]. eapply occ_deep; [left; reflexivity | apply IH]. Qed.
+
+(* a definition that refers to itself through a chain of components of ANY depth is on a cycle of the graph the search runs on *)
+Lemma nested_self_reference_cycle : forall d n cs rest,
+  on_cycle (item_graph (ItemDef n None (nested d n :: cs) :: rest)) n.
+Proof.
+  intros d n cs rest. set (t := ItemDef n None (nested d n :: cs)).
+  destruct (nested_reference_is_edge t rest n) as (ts & Ht & Hin).
+  { eapply occ_deep; [left; reflexivity | apply nested_occurs]. }
+  eapply path_one; [exact Ht | exact Hin].
+Qed.
+
+(* a flat collection (definition + direct components only) misses a reference two levels down *)
+Lemma flat_refs_refuted : exists t x, occurs x t /\ ~ In x (flat_refs t) /\ In x (collect_refs t).
+Proof.
+  exists (ItemDef 7 None [nested 1 7]), 7. split; [|split].
+  - eapply occ_deep; [left; reflexivity | apply nested_occurs].
+  - vm_compute. intuition discriminate.
+  - vm_compute. tauto.
+Qed.
+
+(* and the search finds the cycle for every nesting depth up to 6 (finite; the general statement needs the general correctness of the search) *)
+Lemma nested_cycle_found_upto_6 : forallb (fun d => match has_cycle (item_graph [ItemDef 5 None [nested d 5]]) with Cycle => true | _ => false end) (seq 0 7) = true.
+Proof. vm_compute. reflexivity. Qed.
